@@ -37,19 +37,22 @@ func init() {
 		ID: "C06",
 		Rule: "exhaustive: (A) every set of ≤3 declared media-type keys out of 9 (exact, with parameters, type/*, */*, no-slash) × 16 Content-Type texts × accept/reject schema patterns × required; " +
 			"(B) object schemas with a readOnly/nullable/typed property, a writeOnly property, every required subset, additionalProperties nil/true/false × 16 object values × ExcludeReadOnlyValidations; " +
-			"(C) urlencoded: 2 properties of every primitive/array type × 7 field texts each × nullable/required × encodings; (D) multipart part lists; " +
-			"then a seeded random stream of nested schemas × schema-directed values (valid and mutated) × JSON renderings (whitespace, duplicate keys, trailing data) × raw/malformed bodies × media-type sets × headers. " +
-			"A case is non-trivial when the model reports at least one non-default branch (selection level, decoder, outcome class, read-only handling, value shape).",
+			"(B2) the same features declared inside a member of allOf/anyOf/oneOf (× member/top-level required × 4 member layouts × 16 values × the option), not, nested compositions, null against compositions; " +
+			"blank and white-space padded bodies × 9 content-type situations × required; " +
+			"(C) urlencoded: 2 properties of every primitive/array type × 7 field texts each × nullable/required × encodings; (C2) properties declared inside allOf/anyOf/oneOf members (also nested, also twice) × 5 encodings × 6 texts; " +
+			"(C3) property schemas that are compositions themselves × 8 field situations; (D) multipart part lists, also against allOf schemas; " +
+			"then a seeded random stream of nested schemas with compositions × schema-directed values (valid and mutated) × JSON renderings (whitespace, duplicate keys, trailing data, blank) × raw/malformed bodies × media-type sets × headers (also a second header value) × MultiError. " +
+			"A case is non-trivial when the model reports at least one non-default branch (selection level, decoder, outcome class, read-only handling, composition keywords, value shape).",
 		Exhaustive: true,
 		Gen:        genC06,
 		Run:        runC06,
 		Compare:    cmpC06,
 		Shrink:     shrinkC06,
 		Assumptions: []string{
-			"schemas range over the fragment type/nullable/readOnly/writeOnly/minLength/maximum/properties/required/additionalProperties(bool)/items; the full validator is property C01",
+			"schemas range over the fragment type/nullable/readOnly/writeOnly/minLength/maximum/properties/required/additionalProperties(bool)/items/not/oneOf/anyOf/allOf (no discriminator, no default); the full validator is property C01",
 			"numbers in bodies are integers |n| ≤ 10^6 and n+0.5 (exact in float64); number texts in forms are decimal [+-]digits or [+-]digits.5 without leading zeros, or non-numeric",
 			"encoding/json, net/url.ParseQuery, mime and mime/multipart are trusted: what they make of the body text is an input of the model",
-			"array properties of form bodies carry items; per-property styles only form/spaceDelimited/pipeDelimited on arrays; YAML/CSV/zip decoders and nested form parts are outside the model and not generated",
+			"array properties of form bodies carry items; per-property styles only form/spaceDelimited/pipeDelimited on arrays; object-typed properties inside composition members of a form schema, one name declared as integer and as number, YAML/CSV/zip decoders and nested form parts are outside the model and not generated",
 		},
 	})
 }
@@ -426,6 +429,9 @@ func runC06(c hx.Case) any {
 	}
 	if ct != "" {
 		req.Header.Set("Content-Type", ct)
+		if ct2 := jstr(c, "ct2"); ct2 != "" {
+			req.Header.Add("Content-Type", ct2) // a second header value: only the first one counts
+		}
 	}
 	in := &openapi3filter.RequestValidationInput{Request: req,
 		Options: &openapi3filter.Options{ExcludeReadOnlyValidations: jbool(c, "exro"), MultiError: jbool(c, "multi")}}
@@ -747,6 +753,24 @@ func genC06(ctx *hx.Ctx, emit func(hx.Case)) {
 			}
 		}
 	}
+	// null against compositions: which member / level is nullable decides
+	for _, kw := range []string{"allOf", "anyOf", "oneOf"} {
+		for bits := 0; bits < 32; bits++ { // top nullable, member1 nullable, member2 nullable, member2 present, not-member present
+			m1 := sch("ty", "string", "nullable", bits&2 != 0)
+			members := []any{m1}
+			if bits&8 != 0 {
+				members = append(members, sch("ty", "integer", "nullable", bits&4 != 0))
+			}
+			s := sch(kw, members, "nullable", bits&1 != 0)
+			if bits&16 != 0 {
+				s["not"] = sch("ty", "integer", "nullable", bits&4 != 0)
+			}
+			for _, v := range []any{nil, jS("x"), jI(1)} {
+				emit(mkCase(true, []any{mtEntry("application/json", s)}, "application/json", renderJ(v, false, false), false))
+				emit(mkCase(true, []any{mtEntry("application/json", sch("ty", "object", "props", []any{[]any{"p", s}}))}, "application/json", renderJ(jO("p", v), false, false), false))
+			}
+		}
+	}
 	// blank (white-space only) and white-space padded bodies for every decoder and both `required` settings
 	{
 		objS := sch("ty", "object", "props", []any{[]any{"a", sch("ty", "integer")}})
@@ -879,6 +903,45 @@ func genC06(ctx *hx.Ctx, emit func(hx.Case)) {
 			}
 		}
 	}
+	// (C3) the property schema itself is a composition (decodeValue's allOf / anyOf / oneOf / not branches)
+	{
+		I, S, B := sch("ty", "integer"), sch("ty", "string"), sch("ty", "boolean")
+		pvars := []any{
+			sch("anyOf", []any{I, S}), sch("anyOf", []any{S, I}), sch("oneOf", []any{I, B}), sch("oneOf", []any{B, S}),
+			sch("allOf", []any{I, sch("ty", "integer", "max", 3)}), sch("allOf", []any{I, sch("max", 3)}), sch("allOf", []any{sch("ty", "number"), I}),
+			sch("not", S), sch("anyOf", []any{sch("ty", "array", "items", I), S}), sch("anyOf", []any{sch("oneOf", []any{I, B}), S}),
+			sch("oneOf", []any{sch("allOf", []any{I}), sch("anyOf", []any{B})}), sch("anyOf", []any{I}, "nullable", true),
+		}
+		for _, pv := range pvars {
+			for ti := -1; ti < len(texts); ti++ {
+				for opt := 0; opt < 4; opt++ { // bit0 required a, bit1 second value
+					q := []string{"b=k"}
+					if ti >= 0 {
+						q = append(q, "a="+url.QueryEscape(texts[ti]))
+						if opt&2 != 0 {
+							q = append(q, "a=5")
+						}
+					}
+					req := []any{}
+					if opt&1 != 0 {
+						req = append(req, "a")
+					}
+					s := sch("ty", "object", "props", []any{[]any{"a", pv}, []any{"b", S}}, "required", req)
+					emit(mkCase(false, []any{mtEntry(fct, s)}, fct, strings.Join(q, "&"), false))
+					if opt == 0 {
+						s2 := sch("ty", "object", "allOf", []any{sch("props", []any{[]any{"a", pv}})}, "props", []any{[]any{"b", S}})
+						emit(mkCase(false, []any{mtEntry(fct, s2)}, fct, strings.Join(q, "&"), false))
+					}
+				}
+			}
+		}
+	}
+	// a second Content-Type header value is ignored
+	for _, p2 := range [][2]string{{"application/json", "text/plain"}, {"text/plain", "application/json"}, {"application/xml", "application/json"}} {
+		c := mkCase(true, []any{mtEntry("application/json", accept), mtEntry("text/plain", sch("ty", "string"))}, p2[0], bodyText, false)
+		c["ct2"] = p2[1]
+		emit(c)
+	}
 	// non-object / unsupported form schemas, malformed query
 	for _, s := range []any{sch("ty", "string"), sch(), sch("ty", "object", "props", []any{[]any{"a", sch("ty", "object")}}),
 		sch("ty", "object", "props", []any{[]any{"a", sch("ty", "array", "items", sch("ty", "object"))}}),
@@ -979,7 +1042,7 @@ func genMultipart(ctx *hx.Ctx, emit func(hx.Case)) {
 	emit(mkCase(true, []any{mtEntry("multipart/form-data", sch())}, mct, good, false))
 	// allOf schemas: the members' properties are what counts
 	for _, as := range aSchemas {
-		for variant := 0; variant < 4; variant++ {
+		for variant := 0; variant < 7; variant++ {
 			m1 := sch("props", []any{[]any{"a", as}})
 			m2 := sch("props", []any{[]any{"b", sch("ty", "string", "wo", true)}}, "required", []any{"b"})
 			s := sch("ty", "object", "allOf", []any{m1, m2})
@@ -990,6 +1053,12 @@ func genMultipart(ctx *hx.Ctx, emit func(hx.Case)) {
 				s["addl"] = true
 			case 3:
 				s = sch("ty", "object", "allOf", []any{m1, sch("props", []any{[]any{"a", sch("ty", "array", "items", sch("ty", "string"))}})}) // later member wins in the assembly
+			case 4:
+				s = sch("ty", "object", "allOf", []any{m1}) // a single member
+			case 5:
+				s = sch("ty", "object", "allOf", []any{sch("props", []any{[]any{"a", as}, []any{"b", sch("ty", "string")}})}, "props", []any{[]any{"c", sch("ty", "string")}})
+			case 6:
+				s = sch("ty", "object", "allOf", []any{m1, m2, sch("props", []any{[]any{"c", sch("ty", "string")}})})
 			}
 			for i := range pool {
 				for j := range pool {
@@ -1260,6 +1329,9 @@ func randCase(r *hx.Rng) hx.Case {
 	if r.Chance(5) && jstr(c["body"].(map[string]any), "text") == "" {
 		c["emptyReader"] = true
 	}
+	if r.Chance(4) && jstr(c, "ct") != "" {
+		c["ct2"] = hx.Pick(r, []string{"text/plain", "application/json", "application/x-www-form-urlencoded", "*/*"})
+	}
 	return c
 }
 
@@ -1338,6 +1410,18 @@ func randCase0(r *hx.Rng) hx.Case {
 			}
 			if r.Chance(25) {
 				p["max"] = 3
+			}
+			if !isArr && t != "" && r.Chance(12) {
+				// the property schema itself is a composition
+				other := sch("ty", hx.Pick(r, []string{"string", "integer", "boolean"}))
+				switch r.Intn(3) {
+				case 0:
+					p = sch("anyOf", []any{p, other})
+				case 1:
+					p = sch("oneOf", []any{other, p})
+				default:
+					p = sch("allOf", []any{p})
+				}
 			}
 			props = append(props, []any{n, p})
 			if r.Chance(30) {
